@@ -293,7 +293,7 @@ func (c *roomCtx) add(name string, t tree, signer string) error {
 
 func (c *roomCtx) memberContent(u, membership string) tree {
 	ct := tree{"membership": membership, "displayname": u}
-	if c.pseudo && membership == "join" {
+	if c.pseudo { // every membership event carries the mapping (PerformJoin stores the mapping of each of them)
 		m := gmsl.MXIDMapping{UserRoomKey: spec.SenderID(pseudoID(u)), UserID: userID(u)}
 		if err := m.Sign(spec.ServerName(userServer[u]), "ed25519:1", serverKeys[userServer[u]]); err != nil {
 			panic(err)
@@ -444,7 +444,9 @@ func buildRoom(ver string, o roomOpts) (*roomCtx, error) {
 				"state_default": 50, "ban": 50, "kick": 50, "redact": 50, "invite": 0}, []string{"create", "jcreator", "pl"})
 		},
 		func() error {
-			return step("kickbob", "m.room.member", &bo, "alice", tree{"membership": "leave", "reason": "bye"}, []string{"create", "jalice", "jbob", "pl"})
+			kc := c.memberContent("bob", "leave")
+			kc["reason"] = "bye"
+			return step("kickbob", "m.room.member", &bo, "alice", kc, []string{"create", "jalice", "jbob", "pl"})
 		},
 	}
 	for _, s := range steps {
@@ -453,6 +455,17 @@ func buildRoom(ver string, o roomOpts) (*roomCtx, error) {
 		}
 	}
 	return c, nil
+}
+
+// chain is the auth chain of the standard room: every state event of its history.
+func (c *roomCtx) chain() []string {
+	var out []string
+	for _, n := range c.order {
+		if n != "msg" {
+			out = append(out, n)
+		}
+	}
+	return out
 }
 
 // stateNames is the current state of the standard room.
@@ -500,6 +513,8 @@ func (c *roomCtx) signedTPI(target string) tree {
 
 // subjectTree is the well-formed subject event of a type, built on top of the room.
 func (c *roomCtx) subjectTree(typ string) tree {
+	d := c.depth // subjects sit on top of the room, they do not advance it
+	defer func() { c.depth = d }()
 	cr, al, bo, ca, da := c.sender("creator"), c.sender("alice"), c.sender("bob"), c.sender("carol"), c.sender("dave")
 	_ = cr
 	last := []string{"msg"}
